@@ -5,6 +5,7 @@ import Proofs.Lemmas.BeaconBlockOps
 import Proofs.Lemmas.BeaconBlockSlashInv
 import Proofs.Lemmas.BeaconBlockCompose
 import Proofs.Lemmas.BeaconBlockSteps
+import Proofs.Lemmas.BeaconBlockFrames
 import Proofs.Properties.C02
 /-!
 # C01 — block state transition equals the consensus spec for every valid block
@@ -52,9 +53,11 @@ in `Proofs/Lemmas/BeaconBlockSteps.lean`, `Sim.of_eq` of the `toRes` equalities)
 all those hypotheses at once, is proved for voluntary exits, deposits' registry part, BLS changes and slashings
 (`WF_preserved_block_partial`, `WF_preserved_slashing`, `SlashInv_step`) and is NOT proved for the magnitude
 hypotheses across attestations / sync aggregate / withdrawals (balances grow by bounded rewards: a budget argument as in
-`SlashInv`) nor for the context facts C07/C08 provide (committees, total active balance: they do not change inside a
-block, but the frame lemma exists only for the proposer: `proposer_frame`). That is what keeps `M_block_refines_S` a
-`_partial`: see `M_block_refines_S_partial`.
+`SlashInv`) nor assembled with the frame lemmas for the context facts that C07/C08 provide (`ctx_frames`: committee count, committees,
+total active balance and proposer stay the specification's while the state changes under the context; proved for exit
+initiation, i.e. exits and slashings). That is what keeps `M_block_refines_S` a `_partial`: see
+`M_block_refines_S_partial`. For phase0 blocks WITHOUT operations the premise is discharged completely:
+`processBlock_noOps_eq`.
 Each `M` piece is additionally tied to the Go function it models by mode `c01pieces`
 (ZigZagJoin, IsSlashableAttestationData, GetExpectedWithdrawals, InitiateValidatorExit,
 ValidateIndexedAttestationIndicesSet are driven directly with generated inputs).
@@ -63,7 +66,7 @@ namespace Zrnt.Proofs.C01
 open Zrnt Zrnt.Beacon Zrnt.Beacon.Spec Zrnt.Beacon.BlockImpl Zrnt.Proofs.BeaconBlock
 open Zrnt.Beacon.BlockM (Ctx processHeader processRandaoReveal processEth1Vote processBLSToExecutionChange processExecutionPayload processVoluntaryExit processDeposit
   processAttestationPhase0 processAttestationAltair slashValidator processProposerSlashing processAttesterSlashing processBlock postSlotTransition)
-open Zrnt.Proofs.BlockM (RegU64 ExitSmall PubkeyOK SameDuties SlashSmall SlashInv OpSteps Sim Refines Safe)
+open Zrnt.Proofs.BlockM (RegU64 ExitSmall PubkeyOK SameDuties SlashSmall SlashInv OpSteps Sim Refines Safe NoOps SameCommittees)
 
 /-- (a) `common.ValidatorSet.ZigZagJoin`, called on two strictly increasing index lists (what
 `ValidateIndexedAttestation` has established), calls `onIn` with exactly the spec's
@@ -539,5 +542,45 @@ theorem stateTransition_eq {cfg : Config} {block : SignedBlock} {F : Fork} {Inv 
       (postSlotTransition cfg ctx (Impl.processSlots cfg inps s) block) := by
   rw [Zrnt.Proofs.C02.processSlots_eq cfg inps s C N hspe hQ hbound]
   exact BlockM.postSlot_sim H ctx _ hi htyped r hroot
+
+/-- `M_block_refines_S` / `M_sound` WITHOUT the premise `OpSteps`, for phase0 blocks that carry no operations:
+container-fork check, type limits, header, RANDAO, eth1 vote, operation-count limits and the deposit-count rule; the
+invariant (the context's proposer is the specification's, registry and randao vector as they are) is carried through
+header, RANDAO mix-in and eth1 vote by the frame lemmas. For EVERY phase0 state and context with these three facts. -/
+theorem processBlock_noOps_eq (cfg : Config) (ctx : Ctx) (st : State) (block : SignedBlock) (p : Nat) (hno : NoOps block)
+    (hfork : st.fork = .phase0) (hctx : ctx.proposer = some p) (hp : Block.get_beacon_proposer_index cfg st = .ok p)
+    (hplt : p < st.validators.length) (hmix : st.randao_mixes.length = cfg.EPOCHS_PER_HISTORICAL_VECTOR)
+    (hpos : 0 < cfg.EPOCHS_PER_HISTORICAL_VECTOR)
+    (hlook : (cfg.MIN_SEED_LOOKAHEAD + 1) % cfg.EPOCHS_PER_HISTORICAL_VECTOR ≠ 0)
+    (hsmall : cfg.EPOCHS_PER_ETH1_VOTING_PERIOD * cfg.SLOTS_PER_EPOCH * 2 + 2 < 2 ^ 64)
+    (htyped : Block.check_types cfg block = .ok ()) :
+    Sim (Block.process_block cfg st block) (processBlock cfg ctx st block) :=
+  BlockM.processBlock_noOps cfg ctx st block p hno hfork hctx hp hplt hmix hpos hlook hsmall htyped
+
+/-- non-vacuity of `NoOps` and of the type-limit hypothesis: the default block -/
+example : NoOps (default : SignedBlock) := ⟨rfl, rfl, rfl, rfl, rfl, rfl, rfl, rfl⟩
+example : Block.check_types default (default : SignedBlock) = .ok () := rfl
+
+/-- Frame lemmas for the other fields of the context (`proposer_frame` is the one for the proposer): the committee
+count and the committees of the attestable epochs and the total active balance depend on slot, randao history,
+effective balances and activity up to the current epoch only (`SameCommittees`) — which `initiate_validator_exit`
+(voluntary exits, slashings) keeps, because the exit epoch it assigns lies after the current epoch. -/
+theorem ctx_frames (cfg : Config) (s s' : State) (h : SameCommittees cfg s s') :
+    (∀ e, e ≤ get_current_epoch cfg s → get_committee_count_per_slot cfg s' e = get_committee_count_per_slot cfg s e) ∧
+    (∀ slot index, compute_epoch_at_slot cfg slot ≤ get_current_epoch cfg s →
+      get_beacon_committee cfg s' slot index = get_beacon_committee cfg s slot index) ∧
+    get_total_active_balance cfg s' = get_total_active_balance cfg s ∧
+    Block.get_beacon_proposer_index cfg s' = Block.get_beacon_proposer_index cfg s :=
+  ⟨fun e he => BlockM.committee_count_frame cfg s s' h e he,
+   fun slot index he => BlockM.committee_frame cfg s s' h slot index he,
+   BlockM.total_active_balance_frame cfg s s' h,
+   BlockM.proposer_frame cfg s s' h.duties⟩
+
+/-- an exit initiation keeps `SameCommittees` -/
+theorem sameCommittees_initiate (cfg : Config) (s s' : State) (i : Nat)
+    (hcur : get_current_epoch cfg s < FAR_FUTURE_EPOCH) (hslot : s'.slot = s.slot) (hmix : s'.randao_mixes = s.randao_mixes)
+    (hvals : s'.validators = initiate_validator_exit_pure cfg (get_current_epoch cfg s) s.validators i) :
+    SameCommittees cfg s s' :=
+  BlockM.sameCommittees_initiate cfg s s' i hcur hslot hmix hvals
 
 end Zrnt.Proofs.C01
